@@ -2,7 +2,7 @@ META = dict(
     level='model_checking',
     rule=('BFS over lifecycle histories on three sandbox objects of one mbox type (bool-returning create, by-name lookup, registry-style membership), replayed on '
           'fresh objects in lock-step with a reference state machine (NOT_CREATED / CREATED / FAILED); transitions per object: create(ok, library 1), create(ok, '
-          'library 2), create(fail), destroy, register callback, end callback owner, invoke lib_id by name (21 operations); depth 6 (8 thorough) with '
+          'library 2), create(fail), destroy, register callback, end callback owner, invoke lib_id by name (21 operations); depth 6 (10 thorough) with '
           'deduplication on (model state, live-list order, symbol-cache size, key-list size, status word). In every state, for every object: finder on four '
           'addresses of its region, live-list content, malloc / free / get_app_pointer, example-based store+load of a data pointer and a function pointer, '
           'and a registration probe on a replayed copy.'),
